@@ -510,6 +510,71 @@ Proof.
   apply (D rem' S). destruct L as [L|L]; rewrite L; discriminate.
 Qed.
 
+(** ** [rejects_at] exists: a text whose first diagnostic names a token has a
+    first token the parser complains about (the least cut that draws such a
+    diagnostic) *)
+Lemma quiet_by_run f l :
+  pprogram f l <> PFuel -> ~ names_token (pprogram f l) -> quiet l.
+Proof.
+  intros NF Q f' N. apply Q.
+  assert (NF' : pprogram f' l <> PFuel).
+  { intros E. rewrite E in N. destruct N as (d & N & _). discriminate. }
+  rewrite (pprogram_fuel_det f f' l NF NF'). exact N.
+Qed.
+
+Lemma names_token_dec {A} (r : pres A) : names_token r \/ ~ names_token r.
+Proof.
+  unfold names_token. destruct (first_diag r) as [d|].
+  - destruct (pd_where d) as [x|] eqn:W.
+    + left. exists d. split; auto. rewrite W. discriminate.
+    + right. intros (d' & E & W'). inversion E. subst d'. apply W'. exact W.
+  - right. intros (d' & E & _). discriminate.
+Qed.
+
+Theorem rejects_at_exists f ts d :
+  first_diag (pprogram f ts) = Some d -> pd_where d <> None ->
+  exists pre t w, ts = pre ++ t :: w /\ rejects_at ts pre t.
+Proof.
+  intros F W.
+  set (P := fun n => names_token (pprogram (parse_fuel (firstn n ts)) (firstn n ts))).
+  assert (Pall : P (length ts)).
+  { unfold P. rewrite firstn_all.
+    assert (NF : pprogram f ts <> PFuel) by (intros E; rewrite E in F; discriminate).
+    rewrite <- (pprogram_fuel_det f _ ts NF (pprogram_big _ ts (le_n _))). exists d. split; auto. }
+  destruct (Wf_nat.dec_inh_nat_subset_has_unique_least_element P (fun n => names_token_dec _) (ex_intro _ _ Pall))
+    as (m & (Pm & Least) & _).
+  assert (Hm : m <= length ts) by (apply Least; exact Pall).
+  destruct m as [|m'].
+  { exfalso. unfold P in Pm. simpl in Pm. destruct Pm as (d' & E & _). discriminate. }
+  assert (NPm : ~ P m') by (intros Q; specialize (Least m' Q); lia).
+  pose proof (firstn_skipn m' ts) as Split.
+  destruct (skipn m' ts) as [|t w] eqn:Sk.
+  { exfalso. assert (L : length (skipn m' ts) = 0) by (rewrite Sk; reflexivity).
+    rewrite skipn_length in L. lia. }
+  set (pre := firstn m' ts) in *.
+  assert (Lpre : length pre = m') by (unfold pre; apply firstn_length_le; lia).
+  assert (E1 : firstn (S m') ts = pre ++ [t]).
+  { rewrite <- Split at 1. replace (S m') with (length pre + 1) by lia. rewrite firstn_app_2. reflexivity. }
+  exists pre, t, w. split; [symmetry; exact Split|].
+  split; [exists w; symmetry; exact Split|]. split.
+  - apply (quiet_by_run (parse_fuel pre)); [apply pprogram_big; apply le_n|exact NPm].
+  - unfold P in Pm. rewrite E1 in Pm. eauto.
+Qed.
+
+(** the form the property clause needs: the first diagnostic names a token [t]
+    of the text, and nothing that starts with the text up to and including [t]
+    is a valid program *)
+Corollary first_diag_token_bad_prefix f ts d :
+  first_diag (pprogram f ts) = Some d -> pd_where d <> None ->
+  exists pre t w, ts = pre ++ t :: w /\ d = diag_tok t (pd_kind d) /\
+    forall w', ~ accepted (pre ++ t :: w').
+Proof.
+  intros F W. destruct (first_diag_prefix_determined f ts d F) as (pre & rem & -> & Ed & D).
+  destruct rem as [|t w]; [exfalso; apply W; rewrite Ed; reflexivity|].
+  exists pre, t, w. split; auto. split; [exact Ed|].
+  intros w'. apply rejects_not_accepted. apply (D (t :: w')). reflexivity.
+Qed.
+
 End Prefix.
 
 (** * The hypotheses are satisfiable: [x + ;] fails at its third token *)
@@ -529,15 +594,6 @@ Proof. vm_compute. reflexivity. Qed.
 (** cut before the [;] the only complaint is "at end" *)
 Example ex_cut_before : pprogram 1%N 100 [ex_x; ex_plus] = PErr [mkPD 1%N None PExpectExpr].
 Proof. vm_compute. reflexivity. Qed.
-
-Lemma quiet_by_run eofl f l :
-  pprogram eofl f l <> PFuel -> ~ names_token (pprogram eofl f l) -> quiet eofl l.
-Proof.
-  intros NF Q f' N. apply Q.
-  assert (NF' : pprogram eofl f' l <> PFuel).
-  { intros E. rewrite E in N. destruct N as (d & N & _). discriminate. }
-  rewrite (pprogram_fuel_det eofl f f' l NF NF'). exact N.
-Qed.
 
 Example ex_rejects_at : rejects_at 1%N ([ex_x; ex_plus] ++ ex_semi :: []) [ex_x; ex_plus] ex_semi.
 Proof.
@@ -561,6 +617,8 @@ Check bad_prefix_at_end.
 Check not_a_prefix_of_valid.
 Check first_diag_at_token.
 Check lenient_first_diag_determined.
+Check rejects_at_exists.
+Check first_diag_token_bad_prefix.
 
 Print Assumptions first_error_prefix_determined.
 Print Assumptions first_diag_prefix_determined.
@@ -568,3 +626,4 @@ Print Assumptions bad_prefix.
 Print Assumptions not_a_prefix_of_valid.
 Print Assumptions first_diag_at_token.
 Print Assumptions pexpr_bad_prefix.
+Print Assumptions rejects_at_exists.
